@@ -179,6 +179,8 @@ impl<Key, Value> CommandExecutor<Key, Value>
     pub(crate) fn send(&self, command: CommandType<Key, Value>) -> CommandSendResult {
         let acknowledgement = CommandAcknowledgement::new();
         #[cfg(cached_verif)]
+        crate::cache::verif::point("send.enter");
+        #[cfg(cached_verif)]
         crate::cache::verif::before_send(0, self.sender.is_full());
         let send_result = self.sender.send(CommandAcknowledgementPair {
             command,
@@ -249,7 +251,11 @@ impl<Key, Value> CommandExecutor<Key, Value>
     fn delete(delete_parameter: DeleteParameter<Key, Value>) -> CommandStatus {
         let may_be_key_id_expiry = delete_parameter.store.delete(delete_parameter.key);
         if let Some(key_id_expiry) = may_be_key_id_expiry {
+            #[cfg(cached_verif)]
+            crate::cache::verif::point("worker.delete.after_store");
             delete_parameter.admission_policy.delete(&key_id_expiry.0);
+            #[cfg(cached_verif)]
+            crate::cache::verif::point("worker.delete.after_weight");
             if let Some(expiry) = key_id_expiry.1 {
                 delete_parameter.ttl_ticker.delete(&key_id_expiry.0, &expiry);
             }
